@@ -76,7 +76,7 @@ VARIABLES
     accepted,   \* i -> every message ever pushed to recvChan, in order (history)
     seen,       \* i -> [k -> messages passed to Receive of state k, in order]
     nArr,       \* i -> deliveries attempted so far
-    recvFrom,   \* i -> [j -> how many of member j's state messages were delivered to i]
+    recvFrom,   \* i -> [j -> which of member j's state messages (tags) were delivered to i]
     rcvErr,     \* i -> number of Receive calls that returned an error
     outcome     \* i -> what Execute returned
 
@@ -117,7 +117,7 @@ Init ==
     /\ accepted = [i \in M |-> <<>>]
     /\ seen = [i \in M |-> [k \in 1..MaxN |-> <<>>]]
     /\ nArr = [i \in M |-> 0]
-    /\ recvFrom = [i \in M |-> [j \in M |-> 0]]
+    /\ recvFrom = [i \in M |-> [j \in M |-> {}]]
     /\ rcvErr = [i \in M |-> 0]
     /\ outcome = [i \in M |-> Running]
 
@@ -234,12 +234,13 @@ SentCount(j) ==
       [] pc[j] \in {"active", "ending", "done"} -> cur[j]
       [] OTHER -> cur[j] - 1
 
-\* the channel delivers to member i the next message member j sent from Initiate
+\* the channel delivers to member i one of the messages member j has sent from
+\* Initiate so far (any order, each at most once; never delivering is possible too)
 ArriveFrom(i, j) ==
     /\ i # j
-    /\ recvFrom[i][j] < SentCount(j)
-    /\ recvFrom' = [recvFrom EXCEPT ![i][j] = @ + 1]
-    /\ Deliver(i, FALSE, recvFrom[i][j] + 1)
+    /\ \E t \in (1..SentCount(j)) \ recvFrom[i][j] :
+          /\ recvFrom' = [recvFrom EXCEPT ![i][j] = @ \cup {t}]
+          /\ Deliver(i, FALSE, t)
 
 \* does the machine have a step of its own to take at the current height?
 StepEnabled(i) ==
@@ -420,6 +421,11 @@ DelayProtects ==
     (Prompt /\ block0 <= start) =>
         \A i \in M, k \in 1..N : \A x \in 1..Len(seen[i][k]) :
             LET m == seen[i][k][x] IN m.tag > k => D(m.tag) = 0
+
+\* the hazard the delay removes is real: without the restriction to delayed
+\* states this does not hold (MC_TooEarly.cfg expects the counterexample)
+NeverTooEarly ==
+    \A i \in M, k \in 1..N : \A x \in 1..Len(seen[i][k]) : seen[i][k][x].tag <= k
 
 \* ... and a message that arrives strictly before the nominal end block of the
 \* state that is current (and that state has an active period) is handed to
